@@ -62,7 +62,7 @@ MANIFEST = {
                  "offsets)",
 }
 CONFIGS = {
-    "quick": [("nofault", 14000), ("failing", 9000), ("extended", 2000)],
+    "quick": [("nofault", 40000), ("failing", 25000), ("extended", 5000)],
     "thorough": [("nofault", 5), ("failing", 4), ("extended", 1)],
 }
 CHUNK = 250
